@@ -740,9 +740,10 @@ def r02_9(ctx):
 
 
 def r02_s(ctx):
-    """clauses of the \\u / surrogate decoding that the accept-exactly property needs (shared with C09)"""
+    """clauses of the \\u / surrogate decoding and of the raw-control-byte rejection that the accept-exactly property needs
+    (shared with C09)"""
     from . import c09
-    for fn in (c09.r09_3, c09.r09_6, c09.r09_8):
+    for fn in (c09.r09_3, c09.r09_4, c09.r09_6, c09.r09_8):
         ctx.include(fn, 'R02.S')
 
 
